@@ -17,11 +17,22 @@ CbT == << [contains |-> "confirm", notcontains |-> "", re |-> "", insens |-> TRU
           [contains |-> "DONE", notcontains |-> "", re |-> "", insens |-> FALSE, once |-> FALSE, complete |-> TRUE, reset |-> FALSE] >>
 Segs == << "confirm-q", "password-q", "yesno-q", "digit-line", "plain", "more", "finished", "done-upper", "done-lower", "password-again", "two-triggers",
           "pw-upper-q", "more-upper" >>       \* the excluded text in capitals: an insensitive not-contains must still see it
-Scn(m) == LET nc == 1 + Below(3, m, 1)
+\* directed part (the first 27 scenarios): for every template its own trigger shown twice (a once-callback must not fire again,
+\* a repeatable one must), the same followed by a completing callback, and the trigger interleaved with the text that excludes it
+Trig == << "confirm-q", "confirm-q", "password-q", "yesno-q", "yesno-q", "digit-line", "finished", "finished", "done-upper" >>
+Anti == << "plain", "plain", "password-again", "pw-upper-q", "plain", "plain", "more-upper", "plain", "done-lower" >>
+Directed(m) == LET t == (m % 9) + 1
+                   v == m \div 9
+               IN [id |-> m,
+                   cbs |-> CASE v = 0 -> << CbT[t] >> [] v = 1 -> << CbT[t], CbT[8] >> [] OTHER -> << CbT[t], Pick(CbT, m, 11) >>,
+                   nexttimeout |-> CASE v = 0 -> << FALSE >> [] OTHER -> << FALSE, Below(3, m, 21) = 0 >>,
+                   segs |-> CASE v = 0 -> << Trig[t], Trig[t] >> [] v = 1 -> << Trig[t], Trig[t], "finished" >> [] OTHER -> << Trig[t], Anti[t], Trig[t] >>]
+Random(m) == LET nc == 1 + Below(3, m, 1)
               ns == 2 + Below(3, m, 2)
           IN [id |-> m, cbs |-> [j \in 1..nc |-> Pick(CbT, m, 10 + j)],
               \* per callback: does it carry a next-timeout (the timeout for what follows its firing)?
               nexttimeout |-> [j \in 1..nc |-> Below(3, m, 20 + j) = 0], segs |-> [j \in 1..ns |-> Pick(Segs, m, 30 + j)]]
+Scn(m) == IF m < 27 THEN Directed(m) ELSE Random(m)
 Init == n = 0
 Next == n < Count /\ n' = n + 1 /\ PrintT("SCN " \o ToJson(Scn(n)))
 Spec == Init /\ [][Next]_n
